@@ -58,3 +58,20 @@ Theorem C04_malloc_size : forall p k v c ss c',
   exists n, len_val p v c = Ok (n, c') /\ n - zc_len ss = copy_len ss /\ zc_len ss = zc_spec k v.
 Proof. exact malloc_size_exact. Qed.
 Print Assumptions C04_malloc_size.
+
+(* tie to the METHOD BODIES (regenerated table Generated/PrimOps.v, see C01_prim_ops_table): for every regenerated writer
+   row and the length row of the same protocol that [len_method] pairs with it (write_i16 / i16_len, write_bytes /
+   bytes_len, write_field_begin / field_begin_len, write_list_begin / list_begin_len ...), whenever the body of the writer
+   succeeds with segments [ss] and final context [c'], the body of the length method started in the same context returns
+   exactly the number of bytes written and ends in the same context *)
+From Coq Require Import String.
+From PV Require Import Thrift.PrimOp Thrift.PrimOpsSem Generated.PrimOps Proofs.PrimOpsP Proofs.PrimOpsTableP.
+Theorem C04_prim_ops_len : forall rw rl, In rw prim_ops -> In rl prim_ops ->
+  r_class rw = "write"%string -> r_class rl = "len"%string -> r_proto rw = r_proto rl ->
+  len_method (r_method rw) = Some (r_method rl) ->
+  forall p, pk_of (r_proto rw) = Some p ->
+  forall k a c, in_s 16 (w_last c) -> pend_ok c -> vals_ok a -> int_ok (r_method rw) a ->
+  forall ss c', run_w p k rw a c = Ok (ss, c') ->
+    run_l p rl a c = Ok (Z.of_nat (List.length (flat ss)), c').
+Proof. exact prim_ops_len. Qed.
+Print Assumptions C04_prim_ops_len.
